@@ -366,7 +366,9 @@ impl PropertySet {
         for (_, value) in self.properties.iter() {
             value.write(writer.by_ref(), self.codepage)?;
         }
-        Ok(())
+        // Flush explicitly: if the writer is a buffered stream, an error
+        // while writing out its buffer on drop would go unnoticed.
+        writer.flush()
     }
 
     pub fn format_identifier(&self) -> &[u8; 16] {
